@@ -5,6 +5,14 @@ Proof: FP/Props/C08.lean on the LP generator `kmpeLP` (DAG model): soundness wit
 assignment decodes to k routes with gamma = x*slack and |f(e) - sum w_i[e in p_i]| * scale(e) <= sum slack_i[e in p_i] on every
 non-ignored edge; objective = sum of slacks), completeness, feasibility from any family of k routes covering the
 non-ignored edges (weights 0, slacks max f <= w_max), optimality transfer and optimality over unbounded weights/slacks.
+Cyclic class (LP generator `kmpecLP`, same file): kmpec_sound (every satisfying assignment decodes per layer to a route of
+the user's graph, traversal counts = edge variables within the repetition caps, pi = w_i * traversals_i(e) <= w_max,
+gamma = slack_i * traversals_i(e) <= w_max, slack inequality with traversal counts on every non-ignored edge, objective =
+sum of slacks), kmpec_complete_within_caps (every family of k weighted walks with slacks within the caps whose products
+stay <= w_max is a satisfying assignment with objective sum slack_i), kmpec_decoded_within_caps (converse),
+kmpec_opt_within_caps (the total slack of an LP optimum is minimal among all such bounded families) and
+kmpec_wmax_cuts_optimum (Lean counterpart of finding C08-mpecycles-wmax-cuts-optimum: on s -> a <-> b the LP optimum is 2
+while a route within w_max and the repetition caps admits slack 1 — its product 8 exceeds w_max = 4).
 Tie: K2 LP-dump equality of kMinPathError (plain, given weights, path-length factors) against kmpeLP / kmpeGivenLP; K1
 evaluation of the spec vocabulary (driver op check.kmpe) on returned solutions; K5 end-to-end oracle: brute-force cover
 number, feasibility for k >= cover number and k=None, slack inequality, objective, is_valid_solution, brute-force optimum
@@ -20,8 +28,13 @@ THEOREMS = ["FP.Props.C08.kmpe_sound", "FP.Props.C08.kmpe_routes_valid", "FP.Pro
             "FP.Props.C08.kmpe_opt_transfer", "FP.Props.C08.kmpe_optimal", "FP.Props.C08.kmpe_factors_sound",
             "FP.Props.C08.factors_gt1_problem_has_solution", "FP.Props.C08.factors_gt1_infeasible",
             "FP.Props.C08.kmpe_factors_complete_false", "FP.Props.C12.intProd_sound", "FP.Props.C12.piecewise_sound",
-            "FP.Props.C07.wmax_adequate", "FP.Props.C01.pathcore_sound", "FP.Props.C12.binProd_exact"]
-IMPORTS = ["FP.Props.C08", "FP.Props.C07", "FP.Props.C01", "FP.Props.C12"]
+            "FP.Props.C08.kmpec_sound", "FP.Props.C08.kmpec_objective", "FP.Props.C08.kmpec_mult_bits",
+            "FP.Props.C08.kmpec_complete_within_caps", "FP.Props.C08.kmpec_decoded_within_caps",
+            "FP.Props.C08.kmpec_opt_within_caps", "FP.Props.C08.kmpec_wmax_cuts_optimum",
+            "FP.Props.C07.wmax_adequate", "FP.Props.C07.klaec_cap", "FP.Props.C01.pathcore_sound",
+            "FP.Props.C01.walkcore_sound", "FP.Props.C01.walk_routes_valid", "FP.Props.C12.binProd_exact",
+            "FP.Props.C04.intProdQ_sound"]
+IMPORTS = ["FP.Props.C08", "FP.Props.C07", "FP.Props.C01", "FP.Props.C12", "FP.Props.C04"]
 K2_ADAPTERS = ["kmpe", "kmpec"]
 RULE = ("K2: random kMinPathError configurations (as for C07, plus path_length_ranges/factors and k=None). K5: random "
         "instances with arbitrary non-negative integer values <= 4, DAG <= 6 edges / cyclic <= 5 edges; for each instance "
@@ -34,8 +47,16 @@ RULE = ("K2: random kMinPathError configurations (as for C07, plus path_length_r
 MODEL_SCOPE = ("modelled and proven: DAG MILP route of kMinPathError — soundness with and without path-length factors, "
                "completeness / feasibility / optimality without factors, subpath constraints and length attribute; with "
                "factors the intended completeness statement is refuted in Lean on a concrete witness (factors_gt1_infeasible) "
-               "and on the real code (findings C08-factors-*); given-weights LP modelled (K2) but not proven; cyclic class: "
-               "end-to-end oracle only; node-weighted inputs not exercised here")
+               "and on the real code (findings C08-factors-*); given-weights LP modelled (K2) but not proven; cyclic class "
+               "kMinPathErrorCycles (edge mode, elements_to_ignore_percentile = None, no path-length factors, safety "
+               "optimisations off; LP generator kmpecLP tied by K2): soundness for every configuration incl. subset "
+               "constraints and empty walks (kmpec_sound); completeness and minimality of the total slack only for families "
+               "of walks within the repetition caps whose products weight x traversals and slack x traversals stay <= w_max, "
+               "scales >= 0 (kmpec_complete_within_caps, kmpec_opt_within_caps) — unrestricted minimality is false for the "
+               "code (kmpec_wmax_cuts_optimum, finding C08-mpecycles-wmax-cuts-optimum) and feasibility at k = width is "
+               "false (finding C08-mpecycles-repetition-cap, end-to-end only), so kmpe_feasible_of_cover / kmpe_optimal have "
+               "no cyclic counterpart; the model identifies a column with its HiGHS name (hypothesis KmpecNameInj); "
+               "node-weighted inputs not exercised here")
 TRUSTED = ["HiGHS returns an optimal assignment of the LP it was given when it reports kOptimal, and reports kInfeasible only "
            "for infeasible LPs (both re-checked against brute force on the K5 instances)"]
 ASSUMPTIONS = ["float weights: slack inequality checked at 1e-6; optimality is compared for int weights only",
